@@ -209,9 +209,9 @@ theorem State.rank_le (st : State) : st.rank ≤ 2 := by
     run, `Some(Err(_))` ends it with `position` (the tokenizer then jumps to the end and enters
     `State::End`, so nothing follows). -/
 def lexLoop (tk : Tokenizer) (position : Nat) : List Token × Option Nat :=
-  if hcond : tk.stream.atEnd = true ∨ tk.state = .finished then ([], none)
+  if _hcond : tk.stream.atEnd = true ∨ tk.state = .finished then ([], none)
   else
-    match hs : parseNextImpl tk with
+    match _hs : parseNextImpl tk with
     | .skip tk' => lexLoop tk' position
     | .token t tk' =>
       let r := lexLoop tk' tk'.stream.pos
@@ -219,14 +219,12 @@ def lexLoop (tk : Tokenizer) (position : Nat) : List Token × Option Nat :=
     | .error => ([], some position)
 termination_by tk.measure
 decreasing_by
-  ·
-    have he : tk.stream.atEnd = false := by
+  · have he : tk.stream.atEnd = false := by
       cases h : tk.stream.atEnd <;> simp_all
-    exact (parseNextImpl_skip he (fun h => hcond (.inr h)) hs).2
-  ·
-    have he : tk.stream.atEnd = false := by
+    exact (parseNextImpl_skip he (fun h => _hcond (.inr h)) _hs).2
+  · have he : tk.stream.atEnd = false := by
       cases h : tk.stream.atEnd <;> simp_all
-    have := (parseNextImpl_token he hs).len_lt he
+    have := (parseNextImpl_token he _hs).len_lt he
     have := State.rank_le tk'.state
     simp only [Tokenizer.measure]
     omega
